@@ -73,48 +73,48 @@ Definition c_spB (work : N) : N :=      (* SP8 / SP6 / SP4 / SP2 *)
   N.lxor (N.lxor (sp des3_SP8 work 0) (sp des3_SP6 work 8)) (N.lxor (sp des3_SP4 work 16) (sp des3_SP2 work 24)).
 
 (* for (cur_round = 0; cur_round < 8; cur_round++): four key words per turn *)
-Fixpoint c_rounds (n : nat) (keys : list N) (leftt right : N) : N * N :=
+Fixpoint c_rounds (n : nat) (keys : list N) (leftt rightt : N) : N * N :=
   match n, keys with
   | S n', k0 :: k1 :: k2 :: k3 :: rest =>
-      let leftt := N.lxor leftt (c_spA (N.lxor (rotr32 right 4) k0)) in
-      let leftt := N.lxor leftt (c_spB (N.lxor right k1)) in
-      let right := N.lxor right (c_spA (N.lxor (rotr32 leftt 4) k2)) in
-      let right := N.lxor right (c_spB (N.lxor leftt k3)) in
-      c_rounds n' rest leftt right
-  | _, _ => (leftt, right)
+      let leftt := N.lxor leftt (c_spA (N.lxor (rotr32 rightt 4) k0)) in
+      let leftt := N.lxor leftt (c_spB (N.lxor rightt k1)) in
+      let rightt := N.lxor rightt (c_spA (N.lxor (rotr32 leftt 4) k2)) in
+      let rightt := N.lxor rightt (c_spB (N.lxor leftt k3)) in
+      c_rounds n' rest leftt rightt
+  | _, _ => (leftt, rightt)
   end.
 
 Definition shl32 (x n : N) : N := w32 (N.shiftl x n).
 
 (* block = (block[0], block[1]) *)
 Definition c_desfunc (keys : list N) (block : N * N) : N * N :=
-  let '(leftt, right) := block in
-  let work := N.land (N.lxor (N.shiftr leftt 4) right) 0x0f0f0f0f in
-  let right := N.lxor right work in let leftt := N.lxor leftt (shl32 work 4) in
-  let work := N.land (N.lxor (N.shiftr leftt 16) right) 0x0000ffff in
-  let right := N.lxor right work in let leftt := N.lxor leftt (shl32 work 16) in
-  let work := N.land (N.lxor (N.shiftr right 2) leftt) 0x33333333 in
-  let leftt := N.lxor leftt work in let right := N.lxor right (shl32 work 2) in
-  let work := N.land (N.lxor (N.shiftr right 8) leftt) 0x00ff00ff in
-  let leftt := N.lxor leftt work in let right := N.lxor right (shl32 work 8) in
-  let right := rotl32 right 1 in
-  let work := N.land (N.lxor leftt right) 0xaaaaaaaa in
-  let leftt := N.lxor leftt work in let right := N.lxor right work in
+  let '(leftt, rightt) := block in
+  let work := N.land (N.lxor (N.shiftr leftt 4) rightt) 0x0f0f0f0f in
+  let rightt := N.lxor rightt work in let leftt := N.lxor leftt (shl32 work 4) in
+  let work := N.land (N.lxor (N.shiftr leftt 16) rightt) 0x0000ffff in
+  let rightt := N.lxor rightt work in let leftt := N.lxor leftt (shl32 work 16) in
+  let work := N.land (N.lxor (N.shiftr rightt 2) leftt) 0x33333333 in
+  let leftt := N.lxor leftt work in let rightt := N.lxor rightt (shl32 work 2) in
+  let work := N.land (N.lxor (N.shiftr rightt 8) leftt) 0x00ff00ff in
+  let leftt := N.lxor leftt work in let rightt := N.lxor rightt (shl32 work 8) in
+  let rightt := rotl32 rightt 1 in
+  let work := N.land (N.lxor leftt rightt) 0xaaaaaaaa in
+  let leftt := N.lxor leftt work in let rightt := N.lxor rightt work in
   let leftt := rotl32 leftt 1 in
-  let '(leftt, right) := c_rounds 8 keys leftt right in
-  let right := rotr32 right 1 in
-  let work := N.land (N.lxor leftt right) 0xaaaaaaaa in
-  let leftt := N.lxor leftt work in let right := N.lxor right work in
+  let '(leftt, rightt) := c_rounds 8 keys leftt rightt in
+  let rightt := rotr32 rightt 1 in
+  let work := N.land (N.lxor leftt rightt) 0xaaaaaaaa in
+  let leftt := N.lxor leftt work in let rightt := N.lxor rightt work in
   let leftt := rotr32 leftt 1 in
-  let work := N.land (N.lxor (N.shiftr leftt 8) right) 0x00ff00ff in
-  let right := N.lxor right work in let leftt := N.lxor leftt (shl32 work 8) in
-  let work := N.land (N.lxor (N.shiftr leftt 2) right) 0x33333333 in
-  let right := N.lxor right work in let leftt := N.lxor leftt (shl32 work 2) in
-  let work := N.land (N.lxor (N.shiftr right 16) leftt) 0x0000ffff in
-  let leftt := N.lxor leftt work in let right := N.lxor right (shl32 work 16) in
-  let work := N.land (N.lxor (N.shiftr right 4) leftt) 0x0f0f0f0f in
-  let leftt := N.lxor leftt work in let right := N.lxor right (shl32 work 4) in
-  (w32 right, w32 leftt).                                  (* block[0] = right; block[1] = leftt  (uint32) *)
+  let work := N.land (N.lxor (N.shiftr leftt 8) rightt) 0x00ff00ff in
+  let rightt := N.lxor rightt work in let leftt := N.lxor leftt (shl32 work 8) in
+  let work := N.land (N.lxor (N.shiftr leftt 2) rightt) 0x33333333 in
+  let rightt := N.lxor rightt work in let leftt := N.lxor leftt (shl32 work 2) in
+  let work := N.land (N.lxor (N.shiftr rightt 16) leftt) 0x0000ffff in
+  let leftt := N.lxor leftt work in let rightt := N.lxor rightt (shl32 work 16) in
+  let work := N.land (N.lxor (N.shiftr rightt 4) leftt) 0x0f0f0f0f in
+  let leftt := N.lxor leftt work in let rightt := N.lxor rightt (shl32 work 4) in
+  (w32 rightt, w32 leftt).                                  (* block[0] = right; block[1] = leftt  (uint32) *)
 
 (* LOAD32H(work[0], p); LOAD32H(work[1], p + 4)  /  STORE32H *)
 Definition load_block (b : list N) : N * N :=
